@@ -14,7 +14,7 @@ FN == INSTANCE FreqNorm WITH TOT <- 4096, MaxSyms <- 256, MaxCount <- 0, Variant
 PC == INSTANCE PrefixCode WITH HMaxSyms <- 256, HMaxCount <- 0, Strategy <- "any",
                                hf <- <<>>, forest <- {}, code <- <<>>, hpc <- "done"
 
-KnownIds == {"C01-KF1", "C01-KF2", "C01-KF3", "C01-KF4", "C01-KF5"}
+KnownIds == {}
 
 Wrong(e) == e.ok /\ (e.y.len # enc[e.b].x.len \/ e.y.h # enc[e.b].x.h)
 
